@@ -98,6 +98,31 @@ theorem dot_value_float {a b : Geonum F} (ha : a.angle.Inv) (hb : b.angle.Inv) (
       ≤ val a.mag * val b.mag * (val (e10 : F) + 1 / 10 ^ 14) + 1 / 10 ^ 29 :=
   Geonum.dot_value_float ha hb hma hmb
 
+/-- (B) **`a·a = |a|²` in rounded arithmetic**: the signed value of a number dotted with itself is within `|a|²·(1e-10 + 1e-14) + 1e-29`
+    of the squared magnitude -/
+theorem dot_self_float {a : Geonum F} (ha : a.angle.Inv) (hma : a.MagDom) :
+    |val (fmul (fmul a.mag a.mag) (FloatLike.cos (a.angle.geometricSub a.angle).gradeAngle)) - val a.mag * val a.mag|
+      ≤ val a.mag * val a.mag * (val (e10 : F) + 1 / 10 ^ 14) + 1 / 10 ^ 29 := by
+  have h := dot_value_float ha ha hma hma
+  rw [sub_self, Real.cos_zero, mul_one] at h
+  exact h
+
+/-- (B) **Cauchy–Schwarz for the signed value, with the rounding slack**: `|a·b| ≤ |a||b|·(1 + 1e-10 + 1e-14) + 1e-29` -/
+theorem dot_cauchy_schwarz_float {a b : Geonum F} (ha : a.angle.Inv) (hb : b.angle.Inv) (hma : a.MagDom) (hmb : b.MagDom) :
+    |val (fmul (fmul a.mag b.mag) (FloatLike.cos (b.angle.geometricSub a.angle).gradeAngle))|
+      ≤ val a.mag * val b.mag * (1 + (val (e10 : F) + 1 / 10 ^ 14)) + 1 / 10 ^ 29 := by
+  have h := dot_value_float ha hb hma hmb
+  have hm : 0 ≤ val a.mag * val b.mag := mul_nonneg hma.2.1 hmb.2.1
+  have hc : |val a.mag * val b.mag * Real.cos (Angle.Tpi b.angle - Angle.Tpi a.angle)| ≤ val a.mag * val b.mag := by
+    rw [abs_mul, abs_of_nonneg hm]
+    calc val a.mag * val b.mag * |Real.cos (Angle.Tpi b.angle - Angle.Tpi a.angle)| ≤ val a.mag * val b.mag * 1 :=
+          mul_le_mul_of_nonneg_left (Real.abs_cos_le_one _) hm
+      _ = _ := mul_one _
+  have := abs_sub_abs_le_abs_sub (val (fmul (fmul a.mag b.mag) (FloatLike.cos (b.angle.geometricSub a.angle).gradeAngle)))
+    (val a.mag * val b.mag * Real.cos (Angle.Tpi b.angle - Angle.Tpi a.angle))
+  have e : val a.mag * val b.mag * (1 + (val (e10 : F) + 1 / 10 ^ 14)) = val a.mag * val b.mag + val a.mag * val b.mag * (val (e10 : F) + 1 / 10 ^ 14) := by ring
+  rw [e]; linarith
+
 /-- (B) **the dot value is symmetric in rounded arithmetic**: `a·b` and `b·a` (computed from the two opposite angle differences)
     agree to within twice the accuracy bound -/
 theorem dot_symm_float {a b : Geonum F} (ha : a.angle.Inv) (hb : b.angle.Inv) (hma : a.MagDom) (hmb : b.MagDom) :
